@@ -286,7 +286,7 @@ func genSignCases(r *RNG, thorough bool) []string {
 		}
 	}
 	// DID
-	g := &didGen{r: r.Fork(), accts: []Acct{mkAcct(0), mkAcct(1)}, seq: map[string]uint64{}, curKey: map[string]int{}, curVM: map[string]string{}, active: map[string]bool{}}
+	g := &didGen{r: r.Fork(), accts: []Acct{mkAcct(0), mkAcct(1)}, seq: map[string]uint64{}, curKey: map[string]int{}, curVM: map[string]string{}, curDoc: map[string]*didtypes.DIDDocument{}, active: map[string]bool{}, dead: map[string]bool{}}
 	for i := 0; i < 4; i++ {
 		g.keys = append(g.keys, mkDidKey(i))
 	}
